@@ -12,7 +12,9 @@ DEFAULT_FW = "deno-lint-ignore-file"
 DEFAULT_LW = "deno-lint-ignore"
 CUSTOM_WORDS = ["my-ignore", "my-ignore-file", "deno-lint-ignore-fil", "deno-lint-ignore", "deno-lint-ignore-file", "lint-off", "ig", "deno-lint-ignore-line",
                 # words that mean something to a pattern language or are otherwise unusual: "all custom words"
-                "lint+ignore", "$lint-ignore", "(x)", "lint.ignore", "[lint-ignore]", "a|b", "x*", "lint\\d", "^ig", "ig$", "é-ignore", "IGNORE", "no", "{2}", "a?b"]
+                "lint+ignore", "$lint-ignore", "(x)", "lint.ignore", "[lint-ignore]", "a|b", "x*", "lint\\d", "^ig", "ig$", "é-ignore", "IGNORE", "no", "{2}", "a?b",
+                # words whose UTF-8 length exceeds their character count by two and more
+                "ígnoré", "忽略-file", "忽略下一行检查", "😀ignore"]
 
 
 def near_misses(w):
@@ -202,7 +204,7 @@ def gen_scenario(rng, force=None):
             decl.append(rng.choice(UNKNOWN))
         if rng.random() < 0.25:
             # an external code that collides with a built-in code (enabled or not): it counts as known AND enabled all the same
-            decl.append(rng.choice(KNOWN_NOT_ENABLED + ["no-debugger", "ban-unused-ignore"]))
+            decl.append(rng.choice(KNOWN_NOT_ENABLED + ["no-debugger", "ban-unused-ignore", "ban-unknown-rule-code", "ban-unknown-rule-code"]))
             decl = list(dict.fromkeys(decl))
     # file body
     if rng.random() < 0.15:
@@ -218,6 +220,10 @@ def gen_scenario(rng, force=None):
                 L.line_comment(rng.choice([" copyright é漢", " @jsx h", " hello", ""]))
             elif k < 0.7:
                 L.block_comment(rng.choice([" block ", "* jsdoc ", " " + (fw or DEFAULT_FW) + " "]))
+            L.newline()
+        if rng.random() < 0.15:
+            # an earlier header comment whose first word merely BEGINS with the file word (an older spelling, a longer word)
+            L.line_comment(directive_text(rng, words_file[0] + rng.choice(["-file", "x", "-line", "2", "-next-line"]), gen_codes(rng, rules, decl)))
             L.newline()
         w = rng.choice(words_file * 4 + allwords)
         codes = gen_codes(rng, rules, decl) if rng.random() < 0.75 else []
